@@ -56,6 +56,18 @@ fn compile(fx: &Fx, thread: &str, anchor: &str) -> Result<Compiled, String> {
     })
 }
 
+/// One scripted provider for the whole check (its own runtime); every run uses a fresh key.
+fn provider() -> &'static crate::provx::Provider {
+    static P: std::sync::OnceLock<(crate::provx::Provider, Arc<tokio::runtime::Runtime>)> = std::sync::OnceLock::new();
+    &P.get_or_init(|| {
+        let rt = crate::provx::new_mt_rt();
+        (crate::provx::Provider::start(&rt), rt)
+    })
+    .0
+}
+
+static PROVIDER_KEY: std::sync::atomic::AtomicUsize = std::sync::atomic::AtomicUsize::new(0);
+
 fn message_content(e: &Event) -> Option<String> {
     match &e.kind {
         EventKind::ContinuityMessageAppended { content, .. } => Some(content.clone()),
@@ -230,6 +242,82 @@ fn check_history(report: &Report, rt: &Arc<tokio::runtime::Runtime>, hist_names:
                     }
                 }
                 Err(e) => report.violation(&format!("C08:compile_error:{variant}"), case_json(&hist_names, i, variant), &format!("compile failed: {e}")),
+            }
+        }
+    }
+    // (v) what a REAL provider run logs (selection decided, context compiled, the bundle artifact)
+    // is what the compile entry returns for the same anchor in the same state
+    if hist_names.len() <= 3 || hist_names.len() >= 15 {
+        let store = fx.store();
+        if let Ok(m) = store.append_message(&thread, "u".into(), "o".into(), "real run".into()) {
+            let handle = fx.engine.create_session();
+            let sid = handle.session_id.clone();
+            if store.append_run_spawned(&thread, &m, &sid, "u".into(), "o".into()).is_ok() {
+                let want = compile(&fx, &thread, &m);
+                let key = format!("c08-{}/v1/responses", PROVIDER_KEY.fetch_add(1, std::sync::atomic::Ordering::SeqCst));
+                provider().script(&key, vec![crate::provx::Resp::Sse { chunks: vec![crate::provx::sse(&[json!({"type": "response.output_text.delta", "delta": "ok"}), json!({"type": "response.completed", "response": {"id": "r1"}}), Value::String("[DONE]".into())])], abort: false }], true);
+                let cfg = crate::provx::config(provider().endpoint(&key));
+                let link = ContinuityRunLink { continuity_id: thread.clone(), message_id: m.clone(), actor_id: "u".into(), origin: "o".into() };
+                fx.rt.block_on(fx.engine.verif_session_future(handle, "real run".into(), Some(link), Some(cfg)));
+                provider().forget(&key);
+                report.eval(None::<&u8>);
+                let events = crate::hops::thread_events(&fx, &thread);
+                let decided = events.iter().find_map(|e| match &e.kind {
+                    EventKind::ContinuityContextSelectionDecided { run_session_id, compiler_strategy, compaction_checkpoints, .. } if *run_session_id == sid => {
+                        Some((compiler_strategy.clone(), serde_json::to_value(compaction_checkpoints).unwrap_or(Value::Null)))
+                    }
+                    _ => None,
+                });
+                let compiled = events.iter().find_map(|e| match &e.kind {
+                    EventKind::ContinuityContextCompiled { run_session_id, bundle_artifact_id, compiler_strategy, from_seq, from_message_id, .. } if *run_session_id == sid => {
+                        Some((bundle_artifact_id.clone(), compiler_strategy.clone(), *from_seq, from_message_id.clone()))
+                    }
+                    _ => None,
+                });
+                let anchor_idx = msg_ids.len();
+                match (&want, decided, compiled) {
+                    (Ok(w), Some((d_strategy, d_ckpts)), Some((bundle_id, c_strategy, c_from_seq, c_from_msg))) => {
+                        let d_ids: Vec<(String, u64)> = d_ckpts.as_array().cloned().unwrap_or_default().iter().map(|c| (c["checkpoint_id"].as_str().unwrap_or("").to_string(), c["to_seq"].as_u64().unwrap_or(0))).collect();
+                        let bundle: Value = std::fs::read(fx.root.join(".rip/artifacts/blobs").join(&bundle_id)).ok().and_then(|b| serde_json::from_slice(&b).ok()).unwrap_or(Value::Null);
+                        let b_dialogue: Vec<(String, String)> = bundle["items"]
+                            .as_array()
+                            .cloned()
+                            .unwrap_or_default()
+                            .iter()
+                            .filter_map(|item| {
+                                let role = item["role"].as_str().unwrap_or("").to_string();
+                                if role != "user" && role != "assistant" {
+                                    return None;
+                                }
+                                let content = match &item["content"] {
+                                    Value::String(s) => s.clone(),
+                                    Value::Array(parts) => parts.iter().filter_map(|p| p["text"].as_str()).collect::<Vec<_>>().join(""),
+                                    other => other.to_string(),
+                                };
+                                Some((role, content))
+                            })
+                            .collect();
+                        let mut diffs = Vec::new();
+                        if d_strategy != w.strategy || c_strategy != w.strategy {
+                            diffs.push(format!("strategy: decided {d_strategy:?}, compiled {c_strategy:?}, compile entry {:?}", w.strategy));
+                        }
+                        if d_ids != w.checkpoints {
+                            diffs.push(format!("decided checkpoints {:?}, compile entry {:?}", d_ids, w.checkpoints));
+                        }
+                        if c_from_seq != w.from_seq || c_from_msg != w.from_message_id {
+                            diffs.push(format!("compiled frame cut ({c_from_seq}, {c_from_msg:?}), compile entry ({}, {:?})", w.from_seq, w.from_message_id));
+                        }
+                        if b_dialogue != w.dialogue {
+                            diffs.push(format!("bundle artifact dialogue {:?}, compile entry {:?}", b_dialogue.iter().map(|d| d.1.chars().take(12).collect::<String>()).collect::<Vec<_>>(), w.dialogue.iter().map(|d| d.1.chars().take(12).collect::<String>()).collect::<Vec<_>>()));
+                        }
+                        if !diffs.is_empty() {
+                            report.violation("C08:logged_decision_differs_from_compile", case_json(&hist_names, anchor_idx, "real provider run"), &diffs.join("; "));
+                        }
+                        report.count("real_runs_whose_logged_decision_was_compared", 1);
+                    }
+                    (Ok(_), d, c) => report.violation("C08:decision_frames_missing", case_json(&hist_names, anchor_idx, "real provider run"), &format!("a provider run logged selection_decided: {}, context_compiled: {}", d.is_some(), c.is_some())),
+                    (Err(_), _, _) => {}
+                }
             }
         }
     }
